@@ -1287,8 +1287,25 @@ async fn run_async(scn: &Scenario, chooser: &mut dyn Chooser) -> Result<Trace, S
 // ---------------------------------------------------------------------------------------------
 // Exploration
 
+/// counters that make an execution count as non-trivial (once per execution)
+pub const NONTRIVIAL_KEYS: &[&str] = &[
+    "two_requests_outstanding",
+    "issue_after_partial_delivery",
+    "cancelled_ops",
+    "executions_with_notifications",
+    "noidle_changed_race",
+    "reidle_windows_checked",
+    "unclean_ends",
+    "clean_ends",
+    "typed_lists_checked",
+    "album_art_loads_checked",
+    "handshakes_checked",
+];
+
 #[derive(Default)]
 pub struct ExploreStats {
+    pub nontrivial: u64,
+    pub cur_nontrivial: bool,
     pub executions: u64,
     pub transitions: u64,
     pub states: HashSet<u64>,
@@ -1304,6 +1321,7 @@ pub struct ExploreStats {
 
 impl ExploreStats {
     pub fn merge(mut self, o: ExploreStats) -> ExploreStats {
+        self.nontrivial += o.nontrivial;
         self.executions += o.executions;
         self.transitions += o.transitions;
         self.states.extend(o.states);
@@ -1327,6 +1345,9 @@ impl ExploreStats {
     }
     pub fn count(&mut self, k: &str) {
         *self.counters.entry(k.to_string()).or_default() += 1;
+        if NONTRIVIAL_KEYS.contains(&k) {
+            self.cur_nontrivial = true;
+        }
     }
 }
 
@@ -1357,7 +1378,11 @@ fn process_trace(scn: &Scenario, t: &Trace, oracle: &Oracle, st: &mut ExploreSta
     if st.samples.len() < 2 && (t.deviations() >= 1 || st.executions == 1) {
         st.samples.push(json!({"scenario": scn.name, "choices": t.choice_names(), "client_wrote": show_bytes(&t.c2s), "events": t.events.iter().map(|e| e.text.clone()).collect::<Vec<_>>()}));
     }
+    st.cur_nontrivial = false;
     let vs = oracle(scn, t, st);
+    if st.cur_nontrivial {
+        st.nontrivial += 1;
+    }
     for mut v in vs {
         // attach the replayable case
         v.case = t.case_json(scn);
